@@ -28,7 +28,11 @@ RULE = ("exhaustive: one record of every length 1..L at every line width 1..W (q
         "(every kind of case, the exhaustive blocks too) the names are not plain identifiers: they start with / contain the comment, header, "
         "quote and separator characters of text-table readers (# > @ ; , \" ' = % \\ | : *), are digits only / have leading zeros / a sign / look "
         "like a float or a missing value (1, 007, -1, 1e3, NA, nan, None), are column titles (chrom, name, length) or 70 characters long, "
-        "more often than not in the FIRST record. Non-trivial = an interval touching or crossing a line break, W = 1, a short last line, "
+        "more often than not in the FIRST record; a SECOND file of the same shape (same names and lengths, other bases and line widths) that "
+        "must not be confused with the one given: a FASTA opened under a RELATIVE name (str / pathlib.Path; open_indexed, Genome.from_file, "
+        "Genome.from_dict + read_sequence(name)) and fetched after os.chdir to a directory holding another file of that name (or none); ONE "
+        "Genome object reading two FASTA files one after the other and the first again; a valid open (open_indexed / Genome.from_file) on a "
+        "path where an earlier open FAILED (FASTA missing / empty / not a FASTA / a directory at that time). Non-trivial = an interval touching or crossing a line break, W = 1, a short last line, "
         ">= 2 records or a description")
 EXHAUSTIVE = {"quick": True, "thorough": True}
 MODEL_OPS = {"index", "fetch", "contig", "genome", "index_chunked", "create_index", "session"}
@@ -44,6 +48,11 @@ ASSUMPTIONS = [
     "names are non-empty, start with a non-blank, contain no '_' for the Genome cases (Genome filters such names by default); "
     "descriptions may contain spaces, tabs, VT/FF; no CR/LF",
 ]
+ASSUMPTIONS.append(
+    "scope decision (round 8): 'the file' of the property is the file that was opened - an object opened under a relative name "
+    "must still return that file's sequences after the caller's os.chdir (an implementation that re-resolves the name and "
+    "silently reads another same-named file, or raises, is reported as relative_name:wrong-result-after-chdir); a valid open "
+    "after a FAILED open on the same path is judged only when the first open did fail")
 TRUSTED_EXTRA = ["temporary FASTA/.fai files written by the harness in a private tempfile.mkdtemp() directory",
                  "harness/trace.py symbolic tracer + the recording file object used to capture the arguments of seek/read"]
 
@@ -500,6 +509,20 @@ def _cases(tier, rng):
         else:
             recs2 = [dict(r, seq=_seq(rng, len(r["seq"]) + rng.choice([1, 2, 5]))) for r in recs]
         yield {"op": "reopen", "recs": recs, "recs2": recs2, "via": rng.choice(["open_indexed", "genome"])}
+    # 2g. a SECOND file of the same shape (same names and lengths, other bases, other line widths) that the object under test
+    #     must not confuse with the one it was given: opened under a RELATIVE name (str / pathlib.Path) and fetched after the
+    #     caller changed the working directory to a directory holding another file of that name (or none); ONE Genome object
+    #     reading two FASTA files one after the other (and the first one again); a valid open on a path where an earlier
+    #     open FAILED (FASTA missing / empty placeholder / not a FASTA / a directory at that time)
+    for _ in range(240 if big else 45):
+        recs = _rand_recs(rng, 16)
+        recs2 = [dict(r, seq=_seq(rng, len(r["seq"])), w=rng.choice([r["w"], 1, 2, 3, 5, 7, len(r["seq"])])) for r in recs]
+        yield {"op": "relative", "recs": recs, "recs2": recs2, "via": rng.choice(["open_indexed", "open_indexed", "genome", "genome_dict"]),
+               "arg": rng.choice(["str", "path"]), "to": rng.choice(["other", "other", "empty"])}
+        yield {"op": "genome_two", "recs": recs, "recs2": recs2, "how": rng.choice(["from_file", "from_dict"]),
+               "first": rng.choice(["default", "explicit"])}
+        yield {"op": "after_failed", "recs": recs, "fail": rng.choice(["missing", "missing", "empty", "empty", "noheader", "headeronly", "isdir"]),
+               "first_via": rng.choice(["open_indexed", "genome"]), "second_via": rng.choice(["open_indexed", "genome"])}
     # 3. random multi-record files
     for _ in range(1500 if big else 120):
         # one file in four is several hundred bytes long (offsets beyond one line / one small chunk)
@@ -603,7 +626,7 @@ def nontrivial(c):
     if c["op"] == "index_large":
         return True
     recs = c["recs"]
-    if len(recs) >= 2 or any(" " in r["h"] for r in recs):
+    if len(recs) >= 2 or any(" " in r["h"] for r in recs) or c["op"] in ("relative", "genome_two", "after_failed"):
         return True
     r = recs[0]
     n, w = len(r["seq"]), r["w"]
@@ -764,6 +787,8 @@ def _impl(c):
             os.remove(p + ".fai")
             second, keep2 = observe()
             return {"first": first, "second": second}
+        if op in ("relative", "genome_two", "after_failed"):
+            return _impl_second_file(c, d)
         if op == "create_index":
             from bionumpy.io.indexed_fasta import create_index
             idx = create_index(p)
@@ -826,6 +851,98 @@ def _impl(c):
         shutil.rmtree(d, ignore_errors=True)
 
 
+def _observe_indexed(f):
+    from bionumpy.datatypes import Interval
+    lengths = {k: int(v) for k, v in f.get_contig_lengths().items()}
+    ivs = [(k, n // 2, n) for k, n in lengths.items()]
+    return {"lengths": sorted([k, v] for k, v in lengths.items()),
+            "seqs": sorted([k, f[k].to_string().upper()] for k in f.keys()),
+            "items": sorted([k, v.to_string().upper()] for k, v in f.items()),
+            "tails": [x.to_string().upper() for x in f.get_interval_sequences(Interval.from_entry_tuples(ivs))] if ivs else []}
+
+
+def _observe_genomic(gs, names):
+    return sorted([k, gs.extract_chromsome(k).to_string().upper()] for k in names)
+
+
+def _impl_second_file(c, d):
+    import bionumpy as bnp
+    from pathlib import Path
+    op = c["op"]
+    names = [name_of(r) for r in c["recs"]]
+    if op == "relative":
+        a, b = os.path.join(d, "sampleA"), os.path.join(d, "sampleB")
+        os.mkdir(a), os.mkdir(b)
+        with open(os.path.join(a, "genome.fa"), "w") as fh:
+            fh.write(file_text(c["recs"]))
+        if c["to"] == "other":
+            with open(os.path.join(b, "genome.fa"), "w") as fh:
+                fh.write(file_text(c["recs2"]))
+        cwd = os.getcwd()
+        try:
+            os.chdir(a)
+            arg = Path("genome.fa") if c["arg"] == "path" else "genome.fa"
+            if c["via"] == "open_indexed":
+                f = bnp.open_indexed(arg)
+                os.chdir(b)
+                return _observe_indexed(f)
+            if c["via"] == "genome":
+                g = bnp.Genome.from_file(arg)
+                gs = g.read_sequence()
+            else:
+                g = bnp.Genome.from_dict({name_of(r): len(r["seq"]) for r in c["recs"]})
+                gs = g.read_sequence(arg)
+            os.chdir(b)
+            return {"seqs": _observe_genomic(gs, names)}
+        finally:
+            os.chdir(cwd)
+    if op == "genome_two":
+        pa, pb = os.path.join(d, "a.fa"), os.path.join(d, "b.fa")
+        with open(pa, "w") as fh:
+            fh.write(file_text(c["recs"]))
+        with open(pb, "w") as fh:
+            fh.write(file_text(c["recs2"]))
+        if c["how"] == "from_file":
+            g = bnp.Genome.from_file(pa)
+        else:
+            g = bnp.Genome.from_dict({name_of(r): len(r["seq"]) for r in c["recs"]})
+        s1 = g.read_sequence() if (c["first"] == "default" and c["how"] == "from_file") else g.read_sequence(pa)
+        s2 = g.read_sequence(pb)
+        s1b = g.read_sequence(pa)
+        return {"second": _observe_genomic(s2, names), "first": _observe_genomic(s1, names), "first_again": _observe_genomic(s1b, names)}
+    # after_failed: an open that fails, the FASTA then put in place, a valid open on the same path
+    p = os.path.join(d, "late.fa")
+    kind = c["fail"]
+    if kind == "empty":
+        open(p, "w").close()
+    elif kind == "noheader":
+        with open(p, "w") as fh:
+            fh.write("ACGT\nAC\n")
+    elif kind == "headeronly":
+        with open(p, "w") as fh:
+            fh.write(">a\n")
+    elif kind == "isdir":
+        os.mkdir(p)
+
+    def call(via):
+        if via == "open_indexed":
+            return _observe_indexed(bnp.open_indexed(p))
+        g = bnp.Genome.from_file(p)
+        sizes = g.get_genome_context().chrom_sizes
+        return {"lengths": sorted([k, int(v)] for k, v in sizes.items()), "seqs": _observe_genomic(g.read_sequence(), list(sizes))}
+    try:
+        call(c["first_via"])
+    except Exception:
+        pass
+    else:
+        return {"first_call_did_not_fail": True}        # the premise of the case does not hold: nothing to judge
+    if kind == "isdir":
+        os.rmdir(p)
+    with open(p, "w") as fh:
+        fh.write(file_text(c["recs"]))
+    return call(c["second_via"])
+
+
 def impl(c):
     try:
         return _impl(c)
@@ -883,6 +1000,20 @@ def oracle(c):
                 d["tails"] = [r["seq"][len(r["seq"]) // 2:].upper() for r in rs]
             return d
         return {"first": exp(recs), "second": exp(c["recs2"])}
+    if op in ("relative", "genome_two", "after_failed"):
+        genome = (op == "genome_two" or c.get("via") in ("genome", "genome_dict") or "genome" in (c.get("first_via"), c.get("second_via")))
+        if (genome and any("_" in name_of(r) for r in recs)) or ("recs2" in c and not in_domain(c["recs2"])):
+            return SKIP
+        seqs = sorted([name_of(r), r["seq"].upper()] for r in recs)
+        lengths = sorted([name_of(r), len(r["seq"])] for r in recs)
+        full = {"lengths": lengths, "seqs": seqs, "items": seqs, "tails": [r["seq"][len(r["seq"]) // 2:].upper() for r in recs]}
+        if op == "relative":
+            return full if c["via"] == "open_indexed" else {"seqs": seqs}
+        if op == "genome_two":
+            if [(name_of(r), len(r["seq"])) for r in recs] != [(name_of(r), len(r["seq"])) for r in c["recs2"]]:
+                return SKIP
+            return {"second": sorted([name_of(r), r["seq"].upper()] for r in c["recs2"]), "first": seqs, "first_again": seqs}
+        return full if c["second_via"] == "open_indexed" else {"lengths": lengths, "seqs": seqs}
     if op == "session":
         out = []
         for st in c["steps"]:
@@ -943,6 +1074,8 @@ def agree_model(c, got, m):
 
 
 def agree(c, got, exp):
+    if c["op"] == "after_failed" and got == {"first_call_did_not_fail": True}:
+        return True           # the first open did not fail on this tree: the case has no premise (a stale index of the harness's own making)
     if c["op"] == "genome" and isinstance(got, dict) and "seqs" in got:
         got = dict(got, seqs=[[k, s.upper()] for k, s in got["seqs"]], sub=[s.upper() for s in got["sub"]],
                    enc=[s.upper() for s in got["enc"]])
@@ -966,6 +1099,12 @@ def finding_key(c, got, exp):
         if all(gl[0] == el[0] and gl[1] == row[3] for gl, el, row in zip(got["lengths"], exp["lengths"], exp["rows"])):
             return "contig_lengths:bases-per-line"
         return "contig_lengths:wrong"
+    if op == "relative":
+        return "relative_name:wrong-result-after-chdir"
+    if op == "genome_two":
+        return "genome_two_files:wrong-sequence"
+    if op == "after_failed":
+        return "after_failed_open:" + c["first_via"] + ":wrong-result"
     if op == "reopen":
         return "reopen:stale-object-for-a-replaced-file" if isinstance(got, dict) and got.get("first") == exp["first"] else "reopen:wrong-result"
     if op == "session":
